@@ -730,3 +730,19 @@ func (P *Program) phiChainFormula(phi *ssa.Phi, depth int) *formula {
 	}
 	return &formula{op: "and", sub: subs}
 }
+
+// GuardsWithin: literals that hold at ins, composed only up to (and including) function top
+// (closure-creation points between ins and top are followed; callers of top are not).
+func (P *Program) GuardsWithin(ins ssa.Instruction, top *ssa.Function) []Lit {
+	out := append([]Lit{}, P.BlockGuards(ins.Block())...)
+	fn := ins.Parent()
+	for fn != nil && fn != top && fn.Parent() != nil {
+		mc := P.closureSite(fn)
+		if mc == nil {
+			break
+		}
+		out = append(out, P.BlockGuards(mc.Block())...)
+		fn = fn.Parent()
+	}
+	return dedupLits(out)
+}
